@@ -14,6 +14,10 @@ invariant in EVERY reached state:
           (iii) index-only operations: retained voxels bit-identical, padded voxels == fill value
                 (cross-checked by a second execution with NaN as the fill value)
           (iv)  the returned grid equals the reference derivation (C03 semantics, re-checked)
+          (v)   every operation leaves the object it is called on bit-identical (data, grids incl. flag, axes)
+receiver histories (sub-check 'receiver'): ONE live object through  op1 (twice, equal results) ->
+          grid_(g') in place (g' in {shifted, rotated anisotropic, other align_corners}) + in-place re-fill of the data with
+          the ramps of g' -> op2 (judged by (i)-(v) against the reference state of g', then repeated: equal result)
 """
 from __future__ import annotations
 
@@ -34,7 +38,9 @@ RULE = (
     "reduced alphabet at the deeper levels) from every initial container (Image, ImageBatch N=1/2 with per-item grids, "
     "FlowFields/FlowField in world/grid/cube axes) on oriented anisotropic 2-D/3-D grids, executed on the real "
     "objects; distinct = exact bits of (data, grids, validity masks); non-trivial = the operation changed data or "
-    "grid and at least 25% of the voxels of every item are still judged (valid)"
+    "grid and at least 25% of the voxels of every item are still judged (valid); plus depth-3 histories on one live "
+    "object: op1, grid_(g') with in-place data re-fill, op2 (op1 one form per mechanism in quick / reduced alphabet in "
+    "thorough, 3 grids g', op2 reduced alphabet), each op also repeated on the same receiver"
 )
 EXPLANATION = "bounded explicit-state exploration of Image/ImageBatch/FlowFields operation chains carrying world-coordinate ramps"
 ASSUMPTIONS = [
@@ -55,7 +61,7 @@ ASSUMPTIONS = [
 # measured: quick 53k chains / 37k outcomes / 21k non-trivial; thorough 464k chains / 328k outcomes / 150k non-trivial
 MIN_NONTRIVIAL = {"quick": 10000, "thorough": 70000}
 MIN_OUTCOMES = {"quick": 18000, "thorough": 160000}
-MIN_SUB_TRACES = {"chain": 25000}
+MIN_SUB_TRACES = {"chain": 25000, "receiver": 2000}
 
 EPS32 = 2.0 ** -23
 CTOL = 64.0
@@ -1251,16 +1257,35 @@ class StepResult:
         self.problems, self.new, self.undef, self.maxerr = [], None, None, 0.0
 
 
-def step(st: St, op, depth: int) -> StepResult:
-    """Execute op on the real object of st and judge it. problems: list of (kind, detail)."""
+def receiver_fingerprint(obj) -> bytes:
+    """Exact bits of everything a receiver carries: class, data, every grid (incl. flag), flow axes."""
+    from deepali.data import ImageBatch
+
+    grids = list(obj.grids()) if isinstance(obj, ImageBatch) else [obj.grid()]
+    parts = [type(obj).__name__.encode(), str(tuple(obj.shape)).encode(), obj.tensor().detach().contiguous().numpy().tobytes()]
+    for g in grids:
+        parts.append(g._size.numpy().tobytes() + g._center.numpy().tobytes() + g._spacing.numpy().tobytes() + g._direction.numpy().tobytes() + (b"T" if g._align_corners else b"F"))
+    ax = getattr(obj, "_axes", None)
+    parts.append(repr(ax.value if ax is not None else None).encode())
+    return b"|".join(parts)
+
+
+def step(st: St, op, depth: int, obj=None) -> StepResult:
+    """Execute op on the real object of st (a fresh one, or the given live receiver) and judge it.
+    problems: list of (kind, detail)."""
     out = StepResult()
     info = ref_step(st, op)
     if info is None:
         out.undef = "not-enabled:" + op[0]
         return out
     name, a = op
-    obj = make_real(st)
+    if obj is None:
+        obj = make_real(st)
+    fp0 = receiver_fingerprint(obj)
     status, res = guarded(impl_call, obj, st, op)
+    if receiver_fingerprint(obj) != fp0:
+        out.problems.append(("receiver-mutated", "the operation changed the data bits / grids / flag of the object it was called on"))
+        return out
     if status == "raises":
         if is_documented_unsupported(res):
             out.undef = "documented-unsupported:" + type(res).__name__ + ":" + op[0]
@@ -1671,6 +1696,140 @@ class Explorer:
         return new
 
 
+# ---------------------------------------------------------------------------
+# histories on ONE live object:  op1 (twice) -> grid_(g') + in-place re-fill -> op2 (twice)
+RECV_GRIDS = ["shift", "aniso", "otherac"]
+
+
+def recv_grid(r: RefGrid, gname: str) -> RefGrid:
+    """g' of grid_(): same shape, other geometry."""
+    D = r.D
+    g = r.copy()
+    g.z = r.n.copy()
+    if gname == "shift":
+        g.c = r.c + r.R @ (r.s * np.array([1.37, -0.71, 0.45][:D]))
+    elif gname == "aniso":
+        Q = rg.rot2(30.0) if D == 2 else rg.rot3(0.3, 0.2, -0.4)
+        g.R = Q @ r.R
+        g.s = r.s * np.array([1.5, 0.6, 1.2][:D])
+        g.c = r.c + np.array([2.5, -1.25, 0.75][:D])
+    elif gname == "otherac":
+        g.ac = not r.ac
+    else:
+        raise KeyError(gname)
+    return g
+
+
+def recv_ops(D, cls, N, tier):
+    """(first operations, second operations) of the receiver histories."""
+    lvl0 = alphabet(D, cls, N, 0)
+    if tier == "quick":
+        seen, first = set(), []
+        for op in lvl0:
+            if op[0] not in seen:
+                seen.add(op[0])
+                first.append(op)
+        return first, lvl0
+    return lvl0, lvl0
+
+
+def _same_result(a, b, st) -> bool:
+    if isinstance(a, dict) or isinstance(b, dict):
+        if not (isinstance(a, dict) and isinstance(b, dict)) or sorted(a) != sorted(b):
+            return False
+        return all(_same_result(a[k], b[k], st) for k in a)
+    return receiver_fingerprint(a) == receiver_fingerprint(b)
+
+
+def receiver_history(cfg, op1, gname, op2):
+    """Returns (problems [(kind, detail)], undef reason or None, new state or None, number of real calls)."""
+    st0 = build(cfg)
+    if ref_step(st0, op1) is None:
+        return [], "receiver:first-op-not-enabled", None, 0
+    obj = make_real(st0)
+    fp0 = receiver_fingerprint(obj)
+    s1, r1 = guarded(impl_call, obj, st0, op1)
+    if s1 == "raises":
+        return [], "receiver:first-op-raises(reported by the chains)", None, 1
+    if receiver_fingerprint(obj) != fp0:
+        return [("first-op/receiver-mutated", f"{op_sig(op1)} changed the object it was called on")], None, None, 1
+    s1b, r1b = guarded(impl_call, obj, st0, op1)
+    if s1b == "raises" or not _same_result(r1, r1b, st0):
+        return [("first-op/repeat-call", f"{op_sig(op1)} called twice on the same object gives different results")], None, None, 2
+    # grid_(g') in place, data re-filled in place with the ramp of the new grids
+    st1 = st0.copy_meta()
+    st1.grids = [recv_grid(r, gname) for r in st0.grids]
+    st1.real_grids = [real_grid_from_ref(g) for g in st1.grids]
+    st1.masks = [m.copy() for m in st0.masks]
+    shape = st0.data.shape[2:]
+    idx = ri.grid_indices(st1.grids[0].n)
+    st1.data = np.stack([expected_channels(st1, g, idx).reshape((-1,) + shape) for g in st1.grids]).astype(np.float32)
+    single = st0.cls in ("Image", "FlowField")
+    sg, rgd = guarded(lambda: obj.grid_(st1.real_grids[0] if single else list(st1.real_grids)))
+    if sg == "raises":
+        return [("grid_/" + raise_tag(rgd), exc_text(rgd))], None, None, 3
+    with torch.no_grad():
+        obj.tensor().copy_(torch.from_numpy(st1.data[0] if single else st1.data))
+    # the receiver must now carry exactly the new grids and data
+    _, d_obs, g_obs, _ = observe(obj, st1)
+    if d_obs is None or d_obs.tobytes() != st1.data.tobytes() or len(g_obs) != st1.N or any(a is not b for a, b in zip(g_obs, st1.real_grids)):
+        return [("grid_/not-applied", "after grid_(g') the object does not report g' (or the data written in place)")], None, None, 3
+    r = step(st1, op2, 2, obj=obj)
+    calls = 4
+    if not r.problems and r.new is not None:
+        s2b, r2b = guarded(impl_call, obj, st1, op2)
+        calls += 1
+        ok = s2b != "raises"
+        if ok:
+            pick = r2b[op2[1]["level"]] if isinstance(r2b, dict) and op2[1].get("level") in r2b else r2b
+            if isinstance(pick, dict):
+                ok = True  # level not returned: nothing to compare
+            else:
+                _, d2, g2, _ = observe(pick, st1)
+                ok = d2 is not None and d2.tobytes() == r.new.data.tobytes() and len(g2) == len(r.new.real_grids) and all(
+                    receiver_fingerprint_grid(a) == receiver_fingerprint_grid(b) for a, b in zip(g2, r.new.real_grids))
+        if not ok:
+            r.problems.append(("repeat-call", f"{op_sig(op2)} called twice on the same object gives different results"))
+    return r.problems, r.undef, r.new, calls
+
+
+def receiver_fingerprint_grid(g) -> bytes:
+    return g._size.numpy().tobytes() + g._center.numpy().tobytes() + g._spacing.numpy().tobytes() + g._direction.numpy().tobytes() + (b"T" if g._align_corners else b"F")
+
+
+def recv_sig(st_kind: str, op1, gname, op2, kind) -> str:
+    return f"C04/receiver/{op_sig(op1)}>grid_({gname})>{op_sig(op2)}/{st_kind}/{kind}"
+
+
+def run_receiver_shard(acc: Acc, cfg, tier, gname):
+    st0 = build(cfg)
+    ks = kind_sig(st0)
+    first, second = recv_ops(st0.D, st0.cls, st0.N, tier)
+    for op1 in first:
+        for op2 in second:
+            probs, undef, new, calls = receiver_history(cfg, op1, gname, op2)
+            acc.trans(calls)
+            if undef:
+                acc.undef(undef)
+            case = {"cfg": cfg, "recv": {"op1": op1, "grid": gname, "op2": op2}}
+            for kind, detail in probs:
+                acc.violation(recv_sig(ks, op1, gname, op2, kind), case, detail, size=3)
+            if probs:
+                acc.outcome("recv-problem", op_sig(op1), gname, op_sig(op2), probs[0][0])
+                continue
+            if new is None:
+                continue
+            acc.trace("receiver", depth=3)
+            k2 = state_key(new)
+            acc.state(k2)
+            acc.outcome("recv", k2)
+            if valid_fraction(new) >= 0.25:
+                acc.nontriv("recv", op_sig(op1), gname, k2)
+            if len(acc.samples) < 1:
+                acc.sample({"initial": {"kind": cfg["kind"], "grid": cfg["grid"]}, "history_on_one_object": [op1, ["grid_", gname], op2],
+                            "result_grids": [g.describe() for g in new.grids]})
+
+
 def _groups(n, per):
     return [list(range(i, min(i + per, n))) for i in range(0, n, per)]
 
@@ -1684,6 +1843,9 @@ def shards(tier: str, seed: int):
         nops = len(alphabet(len(cfg["grid"]["size"]), cls, N))
         for grp in _groups(nops, per):
             out.append({"tier": tier, "seed": seed, "cfg": i, "first": grp})
+    for i, cfg in enumerate(cfgs):
+        for gname in RECV_GRIDS:
+            out.append({"tier": tier, "seed": seed, "cfg": i, "recv": gname})
     return out
 
 
@@ -1691,6 +1853,9 @@ def run_shard(shard) -> Acc:
     acc = Acc()
     tier = shard["tier"]
     cfg = configs(tier, shard["seed"])[shard["cfg"]]
+    if "recv" in shard:
+        run_receiver_shard(acc, cfg, tier, shard["recv"])
+        return acc
     st0 = build(cfg)
     ex = Explorer(acc, cfg)
     acc.state(state_key(st0))
@@ -1714,6 +1879,12 @@ def run_shard(shard) -> Acc:
 def replay(case):
     """Plain re-execution of a recorded chain; returns [(sig, detail)]."""
     cfg = case["cfg"]
+    if "recv" in case:
+        h = case["recv"]
+        op1, op2 = (h["op1"][0], h["op1"][1]), (h["op2"][0], h["op2"][1])
+        probs, _, _, _ = receiver_history(cfg, op1, h["grid"], op2)
+        ks = kind_sig(build(cfg))
+        return [(recv_sig(ks, op1, h["grid"], op2, kind), detail) for kind, detail in probs]
     ops = [(o[0], o[1]) for o in case["ops"]]
     st = build(cfg)
     out = []
